@@ -45,6 +45,16 @@ func (w *XW) rawRequest(serverIdx int, payload []byte, closeWrite bool, maxWait 
 		return out
 	}
 	_ = stream.SetDeadline(time.Now().Add(maxWait))
+	if pause := w.SenderPause; pause > 0 && len(payload) > 1 {
+		// a slow sender: the request arrives in two pieces with a pause in between
+		if _, err := stream.Write(payload[:len(payload)/2]); err != nil {
+			out.endErr = err
+			_ = stream.Reset()
+			return out
+		}
+		w.S.YieldAfter("slow-sender", pause)
+		payload = payload[len(payload)/2:]
+	}
 	if len(payload) > 0 {
 		if _, err := stream.Write(payload); err != nil {
 			out.endErr = err
@@ -124,6 +134,12 @@ func runC10(s *core.Sim, tier string) RunInfo {
 			d := time.Duration(20+s.Tape.Draw("slow-ms", 400)) * time.Millisecond
 			xs.Rec.Delay = func(string) time.Duration { return d }
 			cases = append(cases, fmt.Sprintf("range origin=%d amount=%d, server stopped meanwhile", origin, amount))
+			if s.Tape.Coin("slow-sender", 1, 2) {
+				// the request is only half read when the server is stopped
+				w.SenderPause = time.Duration(1+s.Tape.Draw("sender-pause-ms", 400)) * time.Millisecond
+				cases = append(cases, "slow sender")
+				s.Probe("server-stopped-with-half-read-request")
+			}
 			var resp rawResp
 			tr := s.Go("request", func() {
 				resp = w.rawRequest(1, frameReq(&p2p_pb.HeaderRequest{Data: &p2p_pb.HeaderRequest_Origin{Origin: origin}, Amount: amount}), true, maxWait)
